@@ -449,11 +449,18 @@ def gen_case(ctx: Ctx, geom, jnp, D, use_real_bank=False, idx=None):
         bankkind = "random-integer"
     # extents: the filter must fit into the padded signal on every axis
     N = [int(rng.integers(2, 6 if D == 2 else 4)) for _ in range(D)]
+    if kind in ("none", "TORUS") and rng.random() < 0.35:
+        # narrow periodic axes: the wrap ((M-1)//2)*dilation is wider than the extent (wraps more than once)
+        j = int(rng.integers(D))
+        N[j] = int(rng.integers(1, 3))
+        opts["rhs_dilation"] = [int(rng.integers(2, 4)) if i == j else 1 for i in range(D)]
     if kind == "VALID" or (kind in ("int", "explicit")):
         rd = per_axis(D, opts.get("rhs_dilation"))
         for j in range(D):
             N[j] = max(N[j], (M[j] - 1) * rd[j] + 1)
     torus = [bool(rng.integers(0, 2)) for _ in range(D)]
+    if kind in ("none", "TORUS") and min(N) <= 2:
+        torus[int(np.argmin(N))] = True
     # input: the declared blocks (sometimes one is absent), in an order that differs from input_keys
     present = list(in_sig)
     if len(present) > 1 and rng.random() < 0.2:
